@@ -143,6 +143,14 @@ def handle (stream : String) (args : List String) : String :=
       | some cs => "ok:" ++ hex cs
       | none => "err"
     | none => "bad-hex"
+  | "sdpfp", attrs =>
+    -- each argument: hex of one fingerprint attribute value, `!` = attribute without value
+    let vals := attrs.map fun a => if a = "!" then some none else (unhex a).map some
+    if vals.any Option.isNone then "bad-hex" else
+    match Fingerprint.collect (vals.filterMap id) .none with
+    | .err => "err"
+    | .none => "none"
+    | .some a v => s!"ok:{hex a}:{hex v}"
   | "fpd", [hx] =>
     match unhex hx with
     | some bs => hex (Fingerprint.format bs)
